@@ -73,7 +73,7 @@ def programs(seed, n):
 def run(ctx):
     q = ctx.quick
     vlib.mc(ctx, "MCRepo.tla", "MCRepoRebuildQuick.cfg" if q else "MCRepoRebuild.cfg", workers=8, timeout=2400)
-    progs = programs(ctx.seed, 40 if q else 500)
+    progs = programs(ctx.seed, 40 if q else 1500)
     by_id = {p["id"]: p for p in progs}
     recs, r = run_trace(ctx, progs, "main", timeout=6000)
     ctx.traces += len(progs)
